@@ -1,4 +1,6 @@
 import LSProofs.Gen.StepG
+import LSProofs.Gen.Bytes
+import LSProofs.Gen.Kind
 /-!
 # C01 for the code as translated from the current source
 
@@ -22,6 +24,36 @@ theorem translated_histories_refine_string (rf : Refuse) (ops : List Op) (w : Wo
 theorem translated_call_is_model_call (rf : Refuse) {w : World} (hw : Wf w) (hrc : RcSmall w.heap) (op : Op)
     (hv : op.ArgsValid) (hc : Op.CharItems op) : stepG rf w op = step rf w op :=
   stepG_eq_step rf hw hrc op hv hc
+
+/-- **reading back**: in the world any history of translated calls leads to, `as_bytes()`, `len()` and `is_empty()` *as
+written in the source* (the branch-free length read and the pointer selection by the last byte, translated) return, for
+every live handle, exactly the text the `String` specification holds for it, its length, and whether it is empty -/
+theorem translated_read_back (rf : Refuse) (ops : List Op) (w : World) (hw : Wf w)
+    (hv : ∀ op ∈ ops, op.ArgsValid) (hcs : ∀ op ∈ ops, Op.CharItems op) (hs : RcSmallAlong rf w ops)
+    (h : Nat) (t : Bytes) (ht : (runG rf w ops).text h = some t) :
+    ∃ r, (runG rf w ops).get h = some r ∧
+      (∀ rf', (LS.GenTie.norm (GenRepr.Repr.as_bytes_body ⟨rf', (runG rf w ops).statics, (runG rf w ops).heap, r⟩) : Rt.Step Unit _) =
+        .next ⟨t⟩ ⟨rf', (runG rf w ops).statics, (runG rf w ops).heap, r⟩) ∧
+      (∀ rf', (LS.GenTie.norm (GenRepr.Repr.len_body ⟨rf', (runG rf w ops).statics, (runG rf w ops).heap, r⟩) : Rt.Step Unit _) =
+        .next t.length ⟨rf', (runG rf w ops).statics, (runG rf w ops).heap, r⟩) ∧
+      (∀ rf', (LS.GenTie.norm (GenRepr.Repr.is_empty_body ⟨rf', (runG rf w ops).statics, (runG rf w ops).heap, r⟩) : Rt.Step Unit _) =
+        .next (decide (t.length = 0)) ⟨rf', (runG rf w ops).statics, (runG rf w ops).heap, r⟩) := by
+  have hw' := (runG_refines rf ops w hw hv hcs hs).2.1
+  generalize runG rf w ops = w' at *
+  cases hg : w'.get h with
+  | none => simp [World.text, hg] at ht
+  | some r =>
+    cases hx : textOf w'.heap w'.statics r with
+    | error u => simp [World.text, hg, hx] at ht
+    | ok t' =>
+      have : t' = t := by simpa [World.text, hg, hx] using ht
+      subst this
+      have hk := kindOk_of_wf hw' hg
+      have hlen : r.len = t'.length := (text_len (dataOk_of_wf hw') (rawOk_of_wf hw' hg) hx).symm
+      refine ⟨r, rfl, fun rf' => ?_, fun rf' => ?_, fun rf' => ?_⟩
+      · rw [as_bytes_tie rf' _ _ r hk]; simp only [Rt.Repr.as_bytes, hx]
+      · rw [len_tie rf' _ _ r hk, len_ap]; simp only [hlen]
+      · rw [is_empty_tie]; simp only [hlen]
 
 /-- non-vacuity: the empty world is well-formed, no count is large, and a concrete history runs -/
 example : RcSmallAlong (fun _ _ => false) {} [.fromStr 0 [0x61] true, .pushStr 0 [0x62] true] ∧ Wf ({} : World) := by
